@@ -156,7 +156,20 @@ func oneOp(ps *poolsim.PS, r *mon.Rand, allowChainOps bool) {
 		}
 		c := coins[r.Intn(len(coins))]
 		var tx *wire.MsgTx
-		switch r.Intn(5) {
+		switch r.Intn(6) {
+		case 5: // more signature operations than a whole block may carry (bare CHECKSIG outputs): can never be mined
+			var extra []*wire.TxOut
+			for left := 20001 + r.Intn(9000); left > 0; {
+				n := min(left, 9000)
+				sc := make([]byte, n)
+				for i := range sc {
+					sc[i] = 0xac
+				}
+				extra = append(extra, &wire.TxOut{Value: 0, PkScript: sc})
+				left -= n
+			}
+			tx = ps.Build(poolsim.TxSpec{In: []chaingen.Spendable{c}, Fee: 100000 + fee(r), NOut: 1, ExtraOut: extra})
+			ps.K.Count("bad.sigop-cost-above-block-limit", 1)
 		case 0: // below the relay fee
 			tx = ps.Build(poolsim.TxSpec{In: []chaingen.Spendable{c}, Fee: 0, NOut: 2})
 		case 1: // outputs exceed inputs
@@ -534,6 +547,7 @@ func main() {
 		c.Require("replacement.accepted", 20)
 		c.Require("submit.orphans_promoted", 10)
 		c.Require("orphan.boundary.within", 10)
+		c.Require("bad.sigop-cost-above-block-limit", 10)
 		c.Require("orphan.boundary.above", 10)
 		c.Require("template.mined", 50)
 		c.Require("chain.reorg", 20)
